@@ -268,4 +268,13 @@ def ctor_configs(seed, profiles=('dev',), quick=True):
             big[0][-1] = (flop[0], big[0][-1][1])
         for p in profiles:
             cfgs.append((p, len(sh), True, dict(flop=flop, ranges=ranges)))
+    # the two ends of every card encoding (ace of spades = code 0 / bit 0, deuce of clubs = code 51 / bit 51) shared between two players
+    for edge in ((0, 0), (12, 3)):
+        if edge in flop:
+            continue
+        others = [c for c in free if c != edge]
+        a_, b_, c_ = rnd.sample(others, 3)
+        ranges = [[(edge, a_), (b_, c_)], [(edge, c_), (a_, b_)]]
+        for p in profiles:
+            cfgs.append((p, 2, True, dict(flop=flop, ranges=ranges)))
     return cfgs
